@@ -632,7 +632,7 @@ fn op_strategy() -> impl Strategy<Value = Op> {
 }
 
 pub fn run_all(ctx: &mut Ctx, replay: Option<&Path>) {
-    ctx.rule("case = history of population-stack operations executed against Populations (inside a State) and a Vec<Vec<_>> model in lock-step, with a full probe of len/is_empty/try_peek(0..h+1)/get_current/peek/current after every step; non-trivial = the history reaches height >= 3 and contains a rotate(n) with 2 <= n <= height; distinct by history");
+    ctx.rule("case = history of population-stack operations executed against Populations (inside a State) and a Vec<Vec<_>> model in lock-step, with a full probe of len/is_empty/try_peek(0..h+1)/get_current/peek/current after every step; rotations of the top n populations for every n in 0..=height (n = 0 is the identity, also through the component on an empty stack); non-trivial = the history reaches height >= 3 and contains a rotate(n) with 2 <= n <= height; distinct by history");
     ctx.assume("rotate(n > height) is outside the stated domain and not generated for the direct call; RotatePopulations(n > height) must be an Err; rotating the top 0 populations (also on an empty stack) is the identity and must be accepted");
     ctx.assume("Clear/Duplicate/Interleave/Split components are only applied when their implicit preconditions hold (a current population; two populations; >= 2 evaluated individuals)");
     let k = StackCheck;
